@@ -1,5 +1,7 @@
 import Driver.CscIO
+import Driver.C08Solve
 import ClarabelModel.Update
+import ClarabelModel.SolverUpdate
 
 open Clarabel Driver Clarabel.Update
 
@@ -38,6 +40,21 @@ def parseOp (s : String) : Option (Op Float) :=
   if s == "S1" then some (.solve true)
   else if s == "S0" then some (.solve false)
   else if s == "N" then some .norms
+  else if s.startsWith "P:" then (parseMatArg (dropPrefix s 2)).map .updateP
+  else if s.startsWith "A:" then (parseMatArg (dropPrefix s 2)).map .updateA
+  else if s.startsWith "Q:" then (parseVecArg (dropPrefix s 2)).map .updateQ
+  else if s.startsWith "B:" then (parseVecArg (dropPrefix s 2)).map .updateB
+  else if s.startsWith "D:" then
+    match (dropPrefix s 2).splitOn ";" with
+    | [p, q, a, b] => do
+      pure (.updateData (← parseMatArg p) (← parseVecArg q) (← parseMatArg a) (← parseVecArg b))
+    | _ => none
+  else none
+
+/-- operations of channel `upd.solve` (whole solver object): the update forms of `parseOp`, and
+`S` for a `solve()` -/
+def parseUOp (s : String) : Option (Clarabel.Solver.UOp Float) :=
+  if s == "S" then some .solve
   else if s.startsWith "P:" then (parseMatArg (dropPrefix s 2)).map .updateP
   else if s.startsWith "A:" then (parseMatArg (dropPrefix s 2)).map .updateA
   else if s.startsWith "Q:" then (parseVecArg (dropPrefix s 2)).map .updateQ
@@ -109,6 +126,9 @@ def handle (ch : String) (kv : KV) : String :=
       | some ops => runSeq st ops
       | none => "bad-request"
     | _, _ => "bad-request"
+  | "upd.solve" =>
+    C08Solve.handleSolve kv ((kv.nat "nops").bind (fun n =>
+      (List.range n).mapM (fun i => (kv.get? s!"op{i}").bind parseUOp)))
   | "upd.index_to_coord" =>
     match kv.nats "colptr", kv.nats "rowval", kv.nat "k" with
     | some cp, some rv, some k =>
